@@ -217,6 +217,57 @@ def rule_plugin_folder_is_not_a_pattern(ctx):
                 ctx.res.ok("O20.4", what, True)
 
 
+def rule_plugin_modules_are_retained(ctx):
+    """
+    O20.6: "field formats and checks supplied by ... a plugin folder resolve by class name exactly like built-ins".  The
+    classes of a plugin are found through ``__subclasses__()``, which holds them weakly; the only strong references are
+    inside the module object that import_plugins() executed.  If that module object is dropped when the function returns
+    (it is not put into sys.modules on purpose: a plugin file may be called csv.py), the classes sit in an unreferenced
+    cycle and disappear with the next garbage collection - from then on the type names no longer resolve.  Rule: every
+    module object created in import_plugins (module_from_spec / import_module / exec_module receiver) escapes into a
+    module-level container of the package or into sys.modules.
+    """
+    import ast
+
+    from ..model import dotted, walk_own
+
+    model = ctx.model
+    ctx.res.minimum("O20.6", 1)
+    info = model.func("cutplace.interface.import_plugins")
+    created = {}
+    for node in walk_own(info.node):
+        if isinstance(node, ast.Assign) and isinstance(node.value, ast.Call) and len(node.targets) == 1 and isinstance(node.targets[0], ast.Name):
+            callee = dotted(node.value.func) or ""
+            if callee.split(".")[-1] in ("module_from_spec", "import_module", "load_module", "__import__"):
+                created[node.targets[0].id] = node
+    if not created:
+        from ..model import AnalysisError
+
+        raise AnalysisError("O20.6: import_plugins creates no module object the rule recognises")
+    module_level = set(info.module.assigns)
+    for name, node in sorted(created.items()):
+        retained = None
+        for other in walk_own(info.node):
+            if isinstance(other, ast.Call) and isinstance(other.func, ast.Attribute) and other.func.attr in ("append", "add", "setdefault", "__setitem__") \
+                    and any(isinstance(arg, ast.Name) and arg.id == name for arg in other.args):
+                holder = dotted(other.func.value) or ""
+                if holder.split(".")[0] in module_level or holder == "sys.modules":
+                    retained = holder
+            if isinstance(other, ast.Assign) and isinstance(other.value, ast.Name) and other.value.id == name:
+                for target in other.targets:
+                    holder = dotted(target.value) if isinstance(target, ast.Subscript) else None
+                    if holder and (holder.split(".")[0] in module_level or holder == "sys.modules"):
+                        retained = holder
+        what = "import_plugins keeps the module object %s alive after it returns" % name
+        if retained:
+            ctx.res.ok("O20.6", what + " (in %s)" % retained, True)
+        else:
+            ctx.res.fail("O20.6", what, "interface.import_plugins:O20.6:%s not retained" % name,
+                         "%s:%d (interface.import_plugins)" % (info.module.relpath, node.lineno),
+                         "the module object %s is referenced by nothing once import_plugins returns: its classes are only weakly held by "
+                         "__subclasses__() and vanish with the next garbage collection, after which the plugin's type names no longer resolve" % name)
+
+
 def rule_every_run_is_closed(ctx):
     """O20.5: "asked for its end-of-data verdict once ... when the run is closed, after which every check is cleaned up":
     every Reader / Writer the package itself creates (command line, rows(), validate(), GUI) is closed on every path."""
@@ -225,4 +276,4 @@ def rule_every_run_is_closed(ctx):
     protocol.rule_validators_are_closed(ctx, "O20.5")
 
 
-RULES = [rule_hook_protocol, rule_row_protocol, rule_run_protocol, rule_class_resolution, rule_plugin_folder_is_not_a_pattern, rule_every_run_is_closed, rule_undefined_attributes, rule_module_state]
+RULES = [rule_hook_protocol, rule_row_protocol, rule_run_protocol, rule_class_resolution, rule_plugin_folder_is_not_a_pattern, rule_plugin_modules_are_retained, rule_every_run_is_closed, rule_undefined_attributes, rule_module_state]
